@@ -100,6 +100,18 @@ def gen_cases(tier, seed):
                     spec['plan']['gate'] = {'match': 's3:UploadPartCopy', 'phase': 'after',
                                             'policy': rng.choice(['reverse', 'lowest_last', 'seeded'])}
                 cases.append(spec)
+    # legacy S3Transfer.upload_file (path sources), parts finishing in steered orders
+    for (T, C) in combos:
+        for size in sizes_for(T, C):
+            for variant in range(2 if tier == 'quick' else 5):
+                spec = {'front_end': 'legacy', 'seed': rng.randrange(1 << 30),
+                        'config': dict(multipart_threshold=T, multipart_chunksize=C, max_concurrency=rng.choice([1, 2, 3, 4])),
+                        'transfers': [{'kind': 'upload', 'size': size}], 'client': {'checksum': rng.choice(['when_supported', 'when_required'])},
+                        'plan': {}}
+                if size >= T and size > C and variant:
+                    spec['plan']['gate'] = {'match': 's3:UploadPart', 'phase': rng.choice(['before', 'after']),
+                                            'policy': rng.choice(['reverse', 'lowest_last', 'seeded'])}
+                cases.append(spec)
     # explicit checksum algorithms (part checksums must be listed at complete)
     for algo in ('CRC32', 'SHA256', 'SHA1'):
         for src in ('path', 'seekable', 'nonseekable'):
@@ -128,10 +140,17 @@ def gen_cases(tier, seed):
     return cases
 
 
+def scenario_describe(x):
+    from ..scenario import describe_outcome
+
+    return describe_outcome(x)
+
+
 def evaluate(obs):
     viol = []
     stats = {'success': 0, 'failed': 0, 'multipart': 0, 'retries_forced': len(obs.world.director.retries_forced),
-             'gated_releases': len(obs.gate.released) if obs.gate else 0, 'src_reads': 0, 'wire_errors': len(obs.world.s3.wire_errors)}
+             'gated_releases': len(obs.gate.released) if obs.gate else 0, 'src_reads': 0, 'wire_errors': len(obs.world.s3.wire_errors),
+             'fe_' + obs.spec.get('front_end', 'manager'): 1}
     nontrivial = False
     for x in obs.xfers:
         if x.outcome == 'success':
@@ -142,6 +161,11 @@ def evaluate(obs):
         if any(u['label'] == x.label for u in obs.world.s3.uploads.values()):
             stats['multipart'] += 1
         viol += oracles.content_oracle(obs, x)
+        viol += oracles.complete_args_oracle(obs, x)
+        if x.outcome != 'success' and not [r for r in obs.world.director.raised if r['kind'] not in ('retry500', 'retryconn')]:
+            # nothing was injected that could make the transfer fail: the failure itself is reported (the fake rejects what S3 rejects)
+            viol.append(oracles.V(f'{x.label}: {x.kind} failed although no fault was injected: {scenario_describe(x)}',
+                                  **oracles.base_mech(obs, x), sym='spurious-failure'))
         stats['src_reads'] += len([e for e in obs.events if e['kind'] == 'src.read' and e.get('label') == x.label])
         # with only absorbed (forced-retry) faults the transfer must not fail either: a failure here is C03's
         # business, but an unexpected failure makes the case trivial for C01 and is reported in the stats
